@@ -140,3 +140,24 @@ pub unsafe extern "C" fn readv(fd: c_int, iov: *const iovec, iovcnt: c_int) -> s
     }
     libc::syscall(libc::SYS_readv, fd, iov, iovcnt) as ssize_t
 }
+
+/// Clock seam: readings of the monotonic clocks by managed threads carry the injected forward skew
+/// (fault kind "clock jump"). std's `Instant::now()` binds here.
+#[no_mangle]
+pub unsafe extern "C" fn clock_gettime(clk: libc::clockid_t, ts: *mut libc::timespec) -> c_int {
+    let r = libc::syscall(libc::SYS_clock_gettime, clk, ts) as c_int;
+    if r == 0
+        && !ts.is_null()
+        && (clk == libc::CLOCK_MONOTONIC || clk == libc::CLOCK_MONOTONIC_RAW || clk == libc::CLOCK_BOOTTIME)
+        && sio::is_active()
+    {
+        let skew = sio::clock_skew_ns();
+        if skew != 0 {
+            let t = &mut *ts;
+            let total = t.tv_nsec as u64 + skew % 1_000_000_000;
+            t.tv_sec += (skew / 1_000_000_000) as libc::time_t + (total / 1_000_000_000) as libc::time_t;
+            t.tv_nsec = (total % 1_000_000_000) as _;
+        }
+    }
+    r
+}
